@@ -12,7 +12,7 @@ use crate::core::libtx::tx_fee;
 use crate::inject::BUDGET_MSG;
 use crate::keychain::{ExtKeychain, Identifier, Keychain};
 use crate::libwallet::verif_hooks::selection;
-use crate::libwallet::{InitTxArgs, IssueInvoiceTxArgs, OutputData, OutputStatus};
+use crate::libwallet::{InitTxArgs, IssueInvoiceTxArgs, OutputData, OutputStatus, Slate};
 use crate::node::Stub;
 use crate::world::*;
 use serde_json::{json, Value};
@@ -447,6 +447,9 @@ fn run_direct_config(
 enum Flow {
 	Send,
 	LateLock,
+	/// late-locked send whose source account loses spendable outputs (another send reserves
+	/// them) between initiation, when the fee is fixed, and finalization, when inputs are selected
+	LateLockShrunk,
 	Invoice,
 	Estimate,
 }
@@ -471,8 +474,6 @@ fn check_api(world: &World, flow: Flow, p: &Params) -> Result<&'static str, (Str
 	let a = world.w("A");
 	let b = world.w("B");
 	a.inj.lock().unwrap().budget = Some(3000);
-	let before = store_view(a, &[]);
-	let before_outs = a.outputs();
 	let args = InitTxArgs {
 		src_acct_name: None,
 		amount: p.amount,
@@ -481,12 +482,37 @@ fn check_api(world: &World, flow: Flow, p: &Params) -> Result<&'static str, (Str
 		max_outputs: p.max_outputs as u32,
 		num_change_outputs: p.change_n as u32,
 		selection_strategy_is_use_all: p.use_all,
-		late_lock: Some(flow == Flow::LateLock),
+		late_lock: Some(flow == Flow::LateLock || flow == Flow::LateLockShrunk),
 		estimate_only: Some(flow == Flow::Estimate),
 		..Default::default()
 	};
 	let fname = format!("{:?}", flow);
 	let mut slate_ids = vec![];
+	// LateLockShrunk: initiation, the recipient's reply and the competing reservation happen
+	// first; the operation under test is the finalization against the shrunken account
+	let mut pending: Option<(Slate, u64)> = None;
+	if flow == Flow::LateLockShrunk {
+		let pre = catch(|| -> Result<(Slate, u64), crate::libwallet::Error> {
+			let s1 = a.init_send(args.clone())?;
+			let s2 = b.receive(&s1, None)?;
+			let mut other = default_args(1);
+			other.minimum_confirmations = p.min_conf;
+			let o1 = a.init_send(other)?;
+			a.lock(&o1)?;
+			Ok((s2, s1.amount))
+		});
+		match pre {
+			Ok(Ok(x)) => pending = Some(x),
+			_ => {
+				// initiation refused (covered by the LateLock flow) or nothing left to reserve
+				let _ = take_last_panic();
+				a.inj.lock().unwrap().budget = None;
+				return Ok("pre-err");
+			}
+		}
+	}
+	let before = store_view(a, &[]);
+	let before_outs = a.outputs();
 	let r = catch(|| -> Result<Option<(uuid::Uuid, u64)>, crate::libwallet::Error> {
 		match flow {
 			Flow::Estimate => {
@@ -502,6 +528,11 @@ fn check_api(world: &World, flow: Flow, p: &Params) -> Result<&'static str, (Str
 				let s2 = b.receive(&s1, None)?;
 				let _s3 = a.finalize(&s2)?;
 				Ok(Some((s1.id, s1.amount)))
+			}
+			Flow::LateLockShrunk => {
+				let (s2, amount) = pending.clone().unwrap();
+				let _s3 = a.finalize(&s2)?;
+				Ok(Some((s2.id, amount)))
 			}
 			Flow::Invoice => {
 				let i1 = b.issue_invoice(IssueInvoiceTxArgs {
@@ -543,7 +574,7 @@ fn check_api(world: &World, flow: Flow, p: &Params) -> Result<&'static str, (Str
 			slate_ids.push(id);
 			// the facts of the agreed transaction
 			let (inputs, change, amount, fee): (Vec<(Identifier, u64)>, Vec<u64>, u64, u64) = match flow {
-				Flow::LateLock => {
+				Flow::LateLock | Flow::LateLockShrunk => {
 					// context is consumed by finalize: read the log entry + locked outputs
 					let t = a.txs().into_iter().find(|t| t.tx_slate_id == Some(id)).ok_or((
 						"C01/no-log-entry/LateLock".to_owned(),
@@ -644,7 +675,13 @@ fn run_api_config(dir: &str, outs: &[OutSpec], cases: &[(Flow, Params)]) -> Dire
 					st.ok += 1;
 					fresh(&mut open);
 				}
-				Ok(_) => st.err += 1,
+				Ok(_) => {
+					st.err += 1;
+					if *flow == Flow::LateLockShrunk {
+						// the preparatory steps changed the store
+						fresh(&mut open);
+					}
+				}
 				Err((key, what)) => {
 					if !st.findings.iter().any(|f| f.key == key) {
 						let mut same = true;
@@ -709,6 +746,7 @@ pub fn replay(payload: &Value) -> i32 {
 		let flow = match payload["flow"].as_str().unwrap() {
 			"Send" => Flow::Send,
 			"LateLock" => Flow::LateLock,
+			"LateLockShrunk" => Flow::LateLockShrunk,
 			"Invoice" => Flow::Invoice,
 			_ => Flow::Estimate,
 		};
@@ -824,7 +862,7 @@ pub fn run(_args: &[String]) -> i32 {
 			amounts.insert(vals[0].saturating_sub(tx_fee(1, 2, 1) + 5));
 		}
 		let mut cases = vec![];
-		let flows = [Flow::Send, Flow::LateLock, Flow::Invoice, Flow::Estimate];
+		let flows = [Flow::Send, Flow::LateLock, Flow::LateLockShrunk, Flow::Invoice, Flow::Estimate];
 		for flow in flows.iter() {
 			for amount in amounts.iter() {
 				for includes_fee in [false, true].iter() {
@@ -889,7 +927,7 @@ pub fn run(_args: &[String]) -> i32 {
 		"arithmetic": {"wallet_multisets": msets.len(), "max_outputs_per_wallet": if thorough {4} else {3}, "value_alphabet": VALUES, "critical_amounts_total": n_amounts,
 			"change_counts": change_ns, "max_outputs": max_outs, "strategies": 2, "includes_fee": 2, "calls": calls[0], "ok": oks[0], "err": errs[0]},
 		"eligibility": {"class_assignments": el_jobs.len(), "classes": CLASSES.iter().map(|c| format!("{:?}", c)).collect::<Vec<_>>(), "min_conf": [0,1,10], "calls": calls[1], "ok": oks[1], "err": errs[1]},
-		"api": {"wallets": api_wallets.len(), "flows": ["Send","LateLock","Invoice","Estimate"], "calls": calls[2], "ok": oks[2], "err_or_estimate": errs[2]},
+		"api": {"wallets": api_wallets.len(), "flows": ["Send","LateLock","LateLockShrunk","Invoice","Estimate"], "calls": calls[2], "ok": oks[2], "err_or_estimate": errs[2]},
 	}));
 	rep.cov("samples", json!([
 		{"wallet": [47,48,250], "amount": 250+48-67-2, "num_change_outputs": 2, "note": "critical amount S - fee - d"},
